@@ -2,7 +2,7 @@
 (* Case generator for the kernel half of C06: every multiset of 1..MaxN lattice points of   *)
 (* each listed space (as a sequence, also in reversed order), every neighbour count         *)
 (* 0 < k < n and the dense form (k = 0), with a kernel method drawn from the list by a      *)
-(* deterministic hash of the case.  A third of the cases divides the records by pd = 2      *)
+(* deterministic hash of the case (4 of the 13 have half-integer polynomial degrees).  A third of the cases divides the records by pd = 2      *)
 (* (half-integer records; all kernel arithmetic stays exact in binary floating point).       *)
 EXTENDS Integers, Sequences, FiniteSets, TLC, Json
 
@@ -25,23 +25,31 @@ RECURSIVE SortedSeqs(_, _)
 SortedSeqs(S, n) == IF n = 0 THEN {<<>>}
                     ELSE UNION {{Append(s, x) : x \in {y \in S : n = 1 \/ PKey(s[n - 1]) <= PKey(y)}} : s \in SortedSeqs(S, n - 1)}
 
-Methods == << [name |-> "linear", en |-> 1, ed |-> 1, c |-> 0, d |-> 1],
-              [name |-> "gauss",  en |-> 1, ed |-> 2, c |-> 0, d |-> 0],
-              [name |-> "poly",   en |-> 1, ed |-> 1, c |-> 1, d |-> 2],
-              [name |-> "gauss",  en |-> 1, ed |-> 1, c |-> 0, d |-> 0],
-              [name |-> "poly",   en |-> 1, ed |-> 1, c |-> 2, d |-> 3],
-              [name |-> "gauss",  en |-> 2, ed |-> 1, c |-> 0, d |-> 0],
-              [name |-> "poly",   en |-> 1, ed |-> 1, c |-> 0, d |-> 1],
-              [name |-> "gauss",  en |-> 5, ed |-> 1, c |-> 0, d |-> 0],
-              [name |-> "poly",   en |-> 1, ed |-> 1, c |-> -1, d |-> 3] >>
+\* degree = d/dd.  The last four have half-integer degrees; their constant keeps the base <x,y> + c >= 0
+\* (a negative base has no real fractional power: not generated).  cneg = the constant used on the space with
+\* negative coordinates ({-2..2}: <x,y> >= -4).
+Methods == << [name |-> "linear", en |-> 1, ed |-> 1, c |-> 0, d |-> 1, dd |-> 1],
+              [name |-> "gauss",  en |-> 1, ed |-> 2, c |-> 0, d |-> 0, dd |-> 1],
+              [name |-> "poly",   en |-> 1, ed |-> 1, c |-> 1, d |-> 2, dd |-> 1],
+              [name |-> "poly",   en |-> 1, ed |-> 1, c |-> 1, d |-> 1, dd |-> 2],
+              [name |-> "gauss",  en |-> 1, ed |-> 1, c |-> 0, d |-> 0, dd |-> 1],
+              [name |-> "poly",   en |-> 1, ed |-> 1, c |-> 2, d |-> 3, dd |-> 1],
+              [name |-> "poly",   en |-> 1, ed |-> 1, c |-> 0, d |-> 3, dd |-> 2],
+              [name |-> "gauss",  en |-> 2, ed |-> 1, c |-> 0, d |-> 0, dd |-> 1],
+              [name |-> "poly",   en |-> 1, ed |-> 1, c |-> 0, d |-> 1, dd |-> 1],
+              [name |-> "poly",   en |-> 1, ed |-> 1, c |-> 1, d |-> 5, dd |-> 2],
+              [name |-> "gauss",  en |-> 5, ed |-> 1, c |-> 0, d |-> 0, dd |-> 1],
+              [name |-> "poly",   en |-> 1, ed |-> 1, c |-> -1, d |-> 3, dd |-> 1],
+              [name |-> "poly",   en |-> 1, ed |-> 1, c |-> 1, d |-> 3, dd |-> 2] >>
+MethFor(mi, neg) == IF Methods[mi].dd = 2 /\ neg THEN [Methods[mi] EXCEPT !.c = @ + 4] ELSE Methods[mi]
 
 Hash(p, k) == SumSeq([i \in 1..Len(p) |-> (2 * i + 1) * PKey(p[i])]) + 5 * k + Len(p)
 Reverse(s) == [i \in 1..Len(s) |-> s[Len(s) + 1 - i]]
 Rhs(n) == [j \in 1..n |-> <<((2 * j) % 3) - 1, (j % 2) + 1>>]
 
-Spaces == { [pts |-> Tuples({0, 1, 2}, 2), maxn |-> MaxN2, big |-> TRUE],
-            [pts |-> Tuples({-2, -1, 0, 1, 2}, 1), maxn |-> MaxN1, big |-> FALSE],
-            [pts |-> Tuples({0, 1}, 3), maxn |-> MaxN3, big |-> FALSE] }
+Spaces == { [pts |-> Tuples({0, 1, 2}, 2), maxn |-> MaxN2, big |-> TRUE, neg |-> FALSE],
+            [pts |-> Tuples({-2, -1, 0, 1, 2}, 1), maxn |-> MaxN1, big |-> FALSE, neg |-> TRUE],
+            [pts |-> Tuples({0, 1}, 3), maxn |-> MaxN3, big |-> FALSE, neg |-> FALSE] }
 
 Init ==
   \E sp \in Spaces :
@@ -52,7 +60,7 @@ Init ==
      /\ (sp.big /\ n = sp.maxn /\ n > 3) => Hash(s, k) % Stride = 0
      /\ case = [kind |-> "kernel",
                 inp |-> [pts |-> IF (Hash(s, k) \div 36) % 2 = 0 THEN s ELSE Reverse(s),
-                         meth |-> Methods[mi], k |-> k, rhs |-> Rhs(n),
+                         meth |-> MethFor(mi, sp.neg), k |-> k, rhs |-> Rhs(n),
                          pd |-> IF (Hash(s, k) \div 72) % 3 = 0 THEN 2 ELSE 1]]
 
 Next == UNCHANGED case
